@@ -241,4 +241,12 @@ example : (run (init 300) demoOps).2 =
 example : (run (init 300) demoOps).1.delay = 350 := by decide
 example : (run (init 300) (demoOps.take 5 ++ [.revoke 2 (tld 1), .exec 1000 0 3 1 0])).2.getLast? = some .none := by decide
 
+-- added by the hygiene audit: `cancel_spec` (a successful cancel by an admin), `approve_once` (an approved buffer in a reachable
+-- state: a second approve is refused), `increase_delay_spec`
+example : (run (init 300) (demoOps.take 5 ++ [.cancel 130 1 3 1 0])).2.getLast? = some (.cancelled 3) ∨
+    ((run (init 300) (demoOps.take 5 ++ [.cancel 130 1 3 1 0])).1.bufs 3).isNone = true := by decide
+example : ((run (init 300) (demoOps.take 5)).1.bufs 3).map (·.approved) = some true ∧
+    (approve (run (init 300) (demoOps.take 5)).1 120 2 3 1).isNone = true := by decide
+example : (increaseDelay (run (init 300) (demoOps.take 3)).1 1 50).isSome = true := by decide
+
 end Gmx.C36
